@@ -98,7 +98,7 @@ func run(name string, seedV int64, nV int, tierV, outV, statsV, replayV, modeV s
 				c, fails := of(r, min(chunk, *n-done), *tier, in)
 				resCh <- sliceRes{c, fails}
 			}()
-			limit := 15 * time.Minute
+			limit := 8 * time.Minute
 			if *tier == "thorough" {
 				limit = 40 * time.Minute
 			}
